@@ -83,6 +83,12 @@ func c04Scenario(s *sc) {
 	if kind == "reload-inflight-email" {
 		rc.Email = true
 	}
+	gi := gi
+	if kind == "retry-5xx" {
+		// a long group_interval tells a retry INSIDE the flush (about 1-3 s of backoff) from a second try by the next
+		// flush (>= 10 s later, beyond the late bound): without the inner retry the delivery counts as never made
+		gi = 10 * time.Second
+	}
 	conf := Conf{Root: Route{Receiver: "r0", GroupBy: []string{"g"}, GW: gw, GI: gi, RI: ri}, Receivers: []Recv{rc}}
 	rc1 := Recv{Name: "r1", Hooks: []Hook{{SendResolved: true}}}
 	two := s.r.Bool()
@@ -97,7 +103,7 @@ func c04Scenario(s *sc) {
 	for i := 0; i < n1; i++ {
 		alerts = append(alerts, c04Alert{"g1", fmt.Sprintf("a%d", i)})
 	}
-	if s.r.Bool() && kind != "reload-inflight-webhook" { // (one group there: the only request before the reload is the slow one)
+	if s.r.Bool() && kind != "reload-inflight-webhook" && kind != "retry-5xx" { // (retry-5xx: both scripted failures must hit the same group) // (one group there: the only request before the reload is the slow one)
 		alerts = append(alerts, c04Alert{"g2", "b0"})
 	}
 	groups := map[string][]string{}
@@ -163,15 +169,19 @@ func c04Scenario(s *sc) {
 		}
 		return true
 	}
-	if !in.Sink.WaitFor(tPost.Add(gw+slack), firstOK) {
-		if in.Sink.WaitFor(tPost.Add(gw+slack+late), firstOK) {
-			s.inconclusive("first notification later than group_wait+%s", slack)
+	backoff := time.Duration(0)
+	if kind == "retry-5xx" {
+		backoff = 3 * time.Second // two retries of the exponential backoff (0.5 s and 0.75 s, each randomised by +-50%)
+	}
+	if !in.Sink.WaitFor(tPost.Add(gw+backoff+slack), firstOK) {
+		if in.Sink.WaitFor(tPost.Add(gw+backoff+slack+late), firstOK) {
+			s.inconclusive("first notification later than group_wait+%s", backoff+slack)
 			return
 		}
 		for _, ep := range endpoints {
 			for _, g := range gnames {
 				if ep != inflightEP && len(sel(in.Sink.Reqs(), ep, g, "firing")) == 0 {
-					s.violate("no-firing-notification", "integration %s got no firing notification for group %s within group_wait+%s", ep, g, slack+late)
+					s.violate("no-firing-notification", "integration %s got no firing notification for group %s within group_wait+%s", ep, g, backoff+slack+late)
 				}
 			}
 		}
@@ -209,6 +219,10 @@ func c04Scenario(s *sc) {
 		return true
 	}
 	in.Sink.WaitFor(time.Now().Add(5*time.Second), allDone)
+	if !in.ClientSettled(inflightEP, 0) {
+		s.inconclusive("the application had not returned from its first deliveries 8s after the receivers answered them")
+		return
+	}
 	quiet := time.Now().Add(time.Second)
 	sleepTo := func(t time.Time) {
 		if t.Before(quiet) {
@@ -225,17 +239,35 @@ func c04Scenario(s *sc) {
 		tEvent = time.Now()
 	case "retry-5xx":
 		tEvent = time.Now()
-		failed := 0
-		for _, r := range in.Sink.Of("r0.w0") {
-			if r.Code >= 500 {
-				failed++
+		// What the product guarantees: a failed attempt does not discharge the notification - it is tried again (inside
+		// the flush, or by a later flush) until a send succeeds. That every group has a DELIVERED notification on r0.w0
+		// is already established above (its absence is reported as no-firing-notification). How many attempts fail before
+		// is not guaranteed: the two scripted failures are per endpoint, so two groups share them (one failure each), and
+		// backoff instants are the product's own. Judged per (endpoint, group): every answered failure is followed by a
+		// delivery of the same group.
+		nFailed := 0
+		for _, g := range gnames {
+			var lastFail time.Time
+			for _, r := range in.Sink.Of("r0.w0") {
+				if groupOf(r) == g && !r.Done.IsZero() && r.Code >= 500 {
+					nFailed++
+					if r.T.After(lastFail) {
+						lastFail = r.T
+					}
+				}
+			}
+			ds := selDone(in.Sink.Reqs(), "r0.w0", g, "firing")
+			if !lastFail.IsZero() && (len(ds) == 0 || !ds[len(ds)-1].T.After(lastFail)) {
+				// (not reachable while the script only fails the first two requests; kept as the statement of the oracle)
+				s.violate("failed-delivery-not-retried", "group %s: the receiver answered an attempt with a 5xx and no delivered notification followed it", g)
+				return
 			}
 		}
-		if failed < 2 {
-			s.violate("failed-delivery-not-retried", "the receiver answered 500 then 503: expected 2 failed attempts before the successful one, saw %d", failed)
+		if nFailed == 0 {
+			s.inconclusive("the scripted receiver failures were not exercised")
 			return
 		}
-		s.count("failed-attempts-retried-inside-the-flush")
+		s.count("failed-attempts-followed-by-a-delivery")
 	case "reload-same", "reload-http", "reload-add":
 		sleepTo(tPost.Add(gw + time.Second))
 		if kind == "reload-add" {
@@ -344,6 +376,9 @@ func c04Scenario(s *sc) {
 
 	// ---- observation window: at least one flush of every group on the live dispatcher ----
 	window := gw + gi + 500*time.Millisecond
+	if kind == "retry-5xx" {
+		window = 2 * time.Second
+	}
 	if newEP != "" {
 		ok := func(reqs []Req) bool {
 			for _, g := range gnames {
@@ -465,6 +500,9 @@ func c04Scenario(s *sc) {
 		return
 	}
 	s.count("no-renotification-judged")
+	if kind == "retry-5xx" {
+		return // (the resolved round would take another group_interval of 10 s)
+	}
 
 	// ---- resolve: exactly one resolved notification per integration that wants them ----
 	time.Sleep(time.Until(startsAt.Add(200 * time.Millisecond)))
